@@ -9,6 +9,8 @@ CONSTANTS
   MaxAdds = 1000000
   MaxEnds = 1000000
   AtomicAdd = FALSE
+  SplitGet = FALSE
+  RecheckOnStore = TRUE
   StaleTimers = FALSE
 VIEW TraceView
 CONSTRAINT HighWater
